@@ -885,7 +885,11 @@ func paramArgIn(v *types.Var, fr *core.Frame) (ast.Expr, *core.Frame, bool) {
 				arg := unparen(fr.Call.Args[i])
 				_, isIdent := arg.(*ast.Ident)
 				tv, hasTV := fr.Parent.Info().Types[arg]
-				if !isIdent && !(hasTV && tv.Value != nil) {
+				// a plain variable, a constant, or a side-effect-free expression (l.head, pre != 0): the
+				// helper's parameter stands for it — the callee is walked in place right after the
+				// argument was evaluated, and writes to what the expression reads drop the
+				// definitions built from it like anywhere else
+				if !isIdent && !(hasTV && tv.Value != nil) && !isPureOrLoad(arg, fr.Parent) {
 					return nil, nil, false
 				}
 				// not reassigned in the callee
@@ -1173,4 +1177,22 @@ func structFieldOrigin(t types.Type, i int) *types.Var {
 		return st.Field(i).Origin()
 	}
 	return nil
+}
+
+// callsFieldAt: event i is a dynamic call of the func-typed field — directly, or through a local that
+// was assigned the field's value in the same section (if cancel := r.cancel; cancel != nil { cancel() }).
+func (g *gpath) callsFieldAt(i int, field string) bool {
+	ev := g.p.Events[i]
+	if callsField(ev, field) {
+		return true
+	}
+	if (ev.Kind != core.KCall && ev.Kind != core.KDefer) || ev.Builtin != "" || ev.Callee != nil || ev.Call == nil {
+		return false
+	}
+	v := identVar(ev.Call.Fun, ev.Frame)
+	if v == nil || v.IsField() {
+		return false
+	}
+	t, ok := g.builderAt(i).term(ev.Call.Fun, ev.Frame)
+	return ok && t == field
 }
